@@ -219,6 +219,28 @@ def spine_states(tier):
                     yield tuple(sorted(x for x in state if x != drop)), (('spine', P), ('remove', drop))
 
 
+def block_states(tier):
+    """two-level sibling blocks: below a grandparent G every child P_i is independently absent / present as itself / present as all of its
+    children / as its first child only / as all children but the last - every combination (5^4, 5^5 for a face); each one is an antichain
+    that needs 0, 1 or 2 merging passes and in which complete and incomplete groups sit next to each other in every arrangement"""
+    import itertools
+    tops = [(3,), (0, 0), (6, 2, 1), (11, 4) + (3,) * 4, (6, 2) + (1,) * 25]
+    if tier != 'quick':
+        tops += [(), (0,), (11, 4), (3, 1, 2, 0), (9, 0) + (2, 1) * 6]
+    for G in tops:
+        kids = rm.children(G)
+        if len(kids) > 5:
+            kids = kids[:2] + kids[5:7] + kids[-1:]       # world cell: faces 0, 1, 5, 6, 11 stand for the twelve
+        options = []
+        for P in kids:
+            ch = rm.children(P)
+            options.append([(), (P,), tuple(ch), (ch[0],), tuple(ch[:-1])])
+        for combo in itertools.product(*options):
+            state = tuple(sorted(x for part in combo for x in part))
+            if state:
+                yield state, (('block', G),)
+
+
 def explore(which, tier, acc):
     """BFS in this process, oracle evaluation in the pool; returns (states, bfs transitions)"""
     import multiprocessing
@@ -279,6 +301,20 @@ def explore(which, tier, acc):
         total_states += nspine
         acc.n['cascade_spines'] = nspine
         acc.notes.append(f'{nspine} cascade spines: sibling staircases along {4 if tier == "quick" else 8} descent paths, every depth 1..30 passes, ending in the world cell / a face / a quintant / a res-5 cell, complete and with one sibling removed')
+        # fourth family: two-level sibling blocks
+        batch = []
+        nblock = 0
+        for st, tr in block_states(tier):
+            nblock += 1
+            batch.append((st, tr))
+            if len(batch) >= 300:
+                flush(batch)
+                batch = []
+        if batch:
+            flush(batch)
+        total_states += nblock
+        acc.n['two_level_blocks'] = nblock
+        acc.notes.append(f'{nblock} two-level sibling blocks: below {5 if tier == "quick" else 10} grandparents (a face, a quintant, resolutions 3, 6, 27; thorough also the world cell, resolutions 1, 2, 4, 14) every child is absent / itself / all its children / its first child / all but its last child, in every combination')
         for p in pending:
             acc.merge(p.get())
     acc.n['lattice_states'] = total_states
